@@ -81,6 +81,8 @@ type vCard struct {
 	stopped      int
 	releasedTot  int64
 	trailerCalls int
+	stopDelay    time.Duration
+	backlog      func() int // entries waiting in the reader's buffer (flow control)
 	realClock    bool // time stamps from the wall clock (free-running workloads), not from the byte count
 }
 
@@ -171,7 +173,13 @@ func (k *vCard) arrive(n int) {
 func (k *vCard) ChangeRingBuffer(int, int) error { return nil }
 func (k *vCard) Close() error                    { return nil }
 func (k *vCard) StartAdapter(int, int) error     { return nil }
-func (k *vCard) StopAdapter() error              { k.mu.Lock(); k.stopped++; k.mu.Unlock(); return nil }
+func (k *vCard) StopAdapter() error {
+	time.Sleep(k.stopDelay) // a device that takes a while to stop
+	k.mu.Lock()
+	k.stopped++
+	k.mu.Unlock()
+	return nil
+}
 func (k *vCard) CollectorConfigure(int, int, uint32, int) error {
 	return nil
 }
@@ -198,6 +206,7 @@ func (k *vCard) Wait() (time.Time, time.Duration, error) {
 }
 
 func (k *vCard) AvailableBuffer() ([]byte, time.Time, error) {
+	vFlowWait(k.backlog)
 	k.mu.Lock()
 	defer k.mu.Unlock()
 	s := k.s
@@ -422,6 +431,7 @@ func vRunLanceroOnce(c *vCase, s *vCardScript) {
 	ls.ncards = 1
 	ls.clockMHz = 125
 	ls.firstRowChanNum = 1
+	card.backlog = func() int { return len(ls.buffersChan) }
 	tap := &vLanTap{LanceroSource: ls}
 	card.tapCount = func() int { return int(atomic.LoadInt32(&tap.nblocks)) }
 	queued := make(chan func())
